@@ -423,8 +423,11 @@ def facts(repo):
     # array.py: resolution of a missing spec and the equality test -----------------------------------------
     rel = "cubed/core/array.py"
     t = _parse(repo, rel)
-    cls = [n for n in t.body if isinstance(n, ast.ClassDef) and n.name == "CoreArray"][0]
-    init = [n for n in cls.body if isinstance(n, ast.FunctionDef) and n.name == "__init__"][0]
+    cls = [n for n in t.body if isinstance(n, ast.ClassDef) and n.name == "CoreArray"]
+    init = [n for c in cls for n in c.body if isinstance(n, ast.FunctionDef) and n.name == "__init__"]
+    if not init:
+        raise ExtractError(f"{rel}: CoreArray.__init__ not found")
+    init = init[0]
     res = [ast.unparse(n.value) for n in ast.walk(init) if isinstance(n, ast.Assign) and ast.unparse(n.targets[0]) == "self.spec"]
     put("specResolution", "List String", _lean_list(lean_str(x) for x in res), rel + ":CoreArray.__init__ (`self.spec = …`)")
     fn = _fn(t, "check_array_specs", rel)
